@@ -41,6 +41,14 @@ CHECKS = {
    text="Tables.tla defines Ceil/Floor/Closest/IsPowerOfTwo, the size-class function and the GFD layout mathematically; TLC evaluates exact vectors (every n in -3..4100, 2^k+d for k<=62) and the interval table, with an ASSUME that the symbolic rules used above 2^30 agree with the mathematical definitions below; the Go harness checks every vector and sweeps every interval (all points up to 2^31 in the thorough tier, 2^22 plus 200k samples per larger interval in quick).",
    note="Pure functions: TLA+ serves as the executable definition, nothing is model-checked. ClosestPowerOfTwo domain 1..2^62.",
    tech="TLA+-defined oracle tables evaluated by TLC, replayed in Go; exhaustive 32-bit sweep against the interval table"),
+ "C03": dict(cat="model_checking", ref="DESIGN.md §4 C03, §3.2",
+   text="Poller.tla models Trigger / Polling at the granularity of the code segments between verif gates (threshold test, link, counter increment, CAS, eventfd write; epoll_wait, dequeue, counter decrement, run, store 0, re-check, self wake-up); TLC checks exec-at-most-once, no-lost-wake-up, high-priority FIFO and that every accepted task eventually runs, over all interleavings. Every labelled edge of the graph is executed as a schedule of the real Poller (both epoll variants) under a gate scheduler, with flag, queues, counters, executed tasks and the kernel's readiness of the epoll descriptor compared after every step; each schedule is then run to quiescence and judged by a state witness (loop parked before epoll_wait(-1), descriptor not ready, accepted task not run).",
+   note="Trusted: TLC, sequentially consistent atomics, ET eventfd semantics (cross-checked with poll(2) at every step). kqueue pollers cannot be built here. System-level effects of AsyncWrite/Wake/Close/Execute are part of the connection traces.",
+   tech="TLA+ spec + TLC exhaustive with liveness; TLC state graph replayed as controlled schedules of the real code (gate scheduler); state-witness oracle"),
+ "C13": dict(cat="model_checking", ref="DESIGN.md §4 C13, §3.1",
+   text="MSQueue.tla models the Michael-Scott queue one action per atomic load / CAS / counter update with the abstract FIFO as ghost state and assertions at the linearisation points; TLC checks linearizability, no loss / duplication, per-producer FIFO, the length-lag lemma and termination under weak fairness over all interleavings. Every labelled edge of the graph is executed as a schedule of the real queue under the gate scheduler with head / tail / next pointers and the counter compared after every step; call/return histories of these schedules, of seeded PCT schedules and of ungated stress windows are validated by QueueLin.tla, where TLC searches for a linearisation.",
+   note="Trusted: TLC, sequentially consistent atomics, no ABA (GC). Bounds: 2 enqueuers x 1 + 1 dequeuer x 2 replayed; 2x2 + 2x2 model-checked in the thorough tier.",
+   tech="TLA+ spec + TLC exhaustive with liveness; TLC state graph replayed as controlled schedules of the real code; trace validation with linearisation search (QueueLin.tla)"),
 }
 NOT_YET = {}
 for i in range(1, 21):
